@@ -5,7 +5,7 @@
 
 package imports
 
-//@ property C19: matchTag, matchTags, MatchFile, matchOS, ShouldBuild, ScanDir
+//@ property C19: matchTag, matchTags, MatchFile, matchOS, ShouldBuild, ScanDir, scanFiles
 //@ bounded C19: TestVerifBoundedShouldBuild
 
 // ---- vocabulary of property C19 (Go's build-constraint rules) ----
@@ -79,7 +79,7 @@ package imports
 
 // ---- C18: the import reader (read.go) ----
 // Ghost input (see /verif/specs/io.spec): gIn[0..gLen) is the input, gPos the read position.
-//@ property C18: newImportReader, isIdent, (*importReader).syntaxError, (*importReader).readByte, (*importReader).peekByte, (*importReader).nextByte, (*importReader).readKeyword, (*importReader).readIdent, (*importReader).readString, (*importReader).readImport, ReadImports, ReadComments
+//@ property C18: scanFiles, newImportReader, isIdent, (*importReader).syntaxError, (*importReader).readByte, (*importReader).peekByte, (*importReader).nextByte, (*importReader).readKeyword, (*importReader).readIdent, (*importReader).readString, (*importReader).readImport, ReadImports, ReadComments
 //@ bounded C18: TestVerifBoundedReadImports
 
 //@ extern (*bufio.Reader).ReadByte(b) (c, err)
@@ -306,9 +306,32 @@ package imports
 //@ extern os.ReadDir(name) (entries, err)
 //@   modifies new H_Int
 //@   ensures entries == nil || fresh(entries)
-//@ func scanFiles
+// scanFiles: a file that imports "C" is skipped unless cgo (or *) is selected; build
+// constraints are evaluated (on the bytes ReadImports returned) exactly when the files
+// were not listed explicitly; an open or read error is returned, never swallowed.
+//@ extern os.Open(name) (f, err)
+//@   modifies fdPath, fdMode, fdClosed, alloc, gPos, gBase, gLen, gIn
+//@   ensures err == nil ==> f != nil && gPos == 0 && gBase == 0 && gLen >= 0
+//@ extern (*os.File).Close(f) (err)
+//@   modifies fdMode, fdClosed
+//@ extern strconv.Unquote(s) (r, err)
+//@   pure
+//@ extern fmt.Errorf(format, a) (r)
+//@   pure
+//@   ensures r != nil
+//@ func keys
 //@   trusted
 //@   modifies new H_Str
+//@ func scanFiles
+//@   requires tags != nil
+//@   names (imps, testImps, err)
+//@   at call imports.ShouldBuild#1: requires !explicitFiles && tags == my_tags
+//@   at call imports.ShouldBuild#1: requires sameSlice(content, data)
+//@   at call imports.ReadImports#1: requires !reportSyntaxError
+//@   loop 1: invariant -1 <= rangeindex && numFiles >= 0 && imports != nil && testImports != nil
+//@   loop 2: invariant -1 <= rangeindex
+//@   loop 3: invariant -1 <= rangeindex
+//@   ensures err == nil ==> numFiles > 0
 //@ func ScanDir
 //@   requires tags != nil
 //@   modifies new H_Int, new H_Str
